@@ -10,3 +10,13 @@ pub mod ops;
 pub mod oracle_commit;
 pub mod oracle_revoke;
 pub mod oracle_persist;
+pub mod chain;
+pub mod ext_c02;
+pub mod ext_c03;
+pub mod ext_c04;
+pub mod ext_c06;
+pub mod ext_c07;
+pub mod ext_c08;
+pub mod ext_c10;
+pub mod ext_c11;
+pub mod ext_c12;
